@@ -329,3 +329,13 @@ META["C07"]["text"] += (
     "of a Byzantine configured member (queries, like acknowledgements, are counted from any configured peer). Whole-run family "
     "'teardown' (members stop being served once their Synchronize is through, all must still complete): fails in about half of the runs on "
     "the previous code, never on the repaired code.")
+
+# lockset engine, second round: hidden mutable state in shared containers (J-payload) and the early-sync scenario family
+META["C20"]["note"] = META["C20"]["note"].replace("ten named judgements", "twelve named judgements") + (
+    " Values with hidden mutable state (function literals that assign or capture a hash.Hash / bytes.Buffer / rand.Rand ... variable, "
+    "results of package functions returning such literals, values of those types) kept in a struct field or sync.Map field are CHECKED: "
+    "every retrieval is a write of <field>@payload under the real locks held, so the obligation fails without a common lock; all other "
+    "function / interface values in fields are ASSUMED safe for concurrent calls (J-callback).")
+META["C20"]["text"] = META["C20"]["text"].replace("(455 entries, 123 fields of", "(several hundred entries, every field of").replace(
+    "delayed Init /", "delayed Init / authentic early membership-sync traffic of a configured member dispatched continuously from before "
+    "every KeyGen and Sign call (64 configured members) /")
